@@ -14,9 +14,13 @@ Access == << <<>>, <<a>>, <<a, DOT>>, <<DQ>>, <<DQ, a>>, <<DQ, BS>>, <<DQ, a, DQ
              <<DQ, SP>>, <<DQ, a, SP>>, <<DQ, BS, DQ>>, <<a, DOT, DQ>>, <<195, 169>>, <<DQ, 195, 169>>, <<195, 169, DOT>>, <<DQ, a, LF>>,
              \* deeper offsets: word-at-a-time or vectorised scans treat the 4th, 8th, 16th, 32nd byte differently
              Rep(a, 3), Rep(a, 7), Rep(a, 8), Rep(a, 15), Rep(a, 17), Rep(a, 33), <<DQ>> \o Rep(a, 6), <<DQ>> \o Rep(a, 15) >>
+\* lengths at which 7- and 8-bit counters wrap: structure bytes only, short suffixes
+LongAccess == << Rep(a, 127), Rep(a, 128), Rep(a, 255), Rep(a, 256), <<DQ>> \o Rep(a, 254), <<DQ>> \o Rep(a, 255) >>
+KeyBytes == {DQ, BS, DOT, SP, CR, LF, a, 40, 64, 127, 128, 195, 255}
+LongSfx == << <<>>, <<a>>, <<DQ>>, <<DOT, a>>, <<DQ, a>>, <<a, DQ>> >>
 Sfx == << <<>>, <<a>>, <<DQ>>, <<DOT, a>>, <<DQ, a>>, <<BS, DQ>>, <<SP, DQ>>, <<a, DQ>>, <<DQ, DOT, a>>, <<DOT>>, <<LF, SP, DQ>>,
           <<SP, a, DQ>>, <<a, SP, a, DQ>>, Rep(a, 9), Rep(a, 8) \o <<DQ>> >>
-Bound == {0, 127, 128, 143, 144, 159, 160, 170, 175, 176, 187, 190, 191, 192, 255}
+Bound == {0, 127, 128, 141, 143, 144, 157, 159, 160, 170, 173, 175, 176, 187, 189, 190, 191, 192, 255}
 Second == IF Full THEN 1..255 ELSE Bound \ {0}
 Third == IF Full THEN {127, 128, 159, 160, 191, 192} ELSE {127, 128, 191, 192}
 Ctx(u, c) == CASE c = 1 -> u [] c = 2 -> <<a>> \o u \o <<a>> [] c = 3 -> <<DQ>> \o u \o <<DQ>> [] c = 4 -> <<DQ, BS>> \o u \o <<DQ>>
@@ -25,6 +29,8 @@ Ctx(u, c) == CASE c = 1 -> u [] c = 2 -> <<a>> \o u \o <<a>> [] c = 3 -> <<DQ>> 
 Init == s = <<>> /\ k = 0
 Next == \/ Part = 1 /\ k = 0 /\ \E p \in 1..Len(Access) : s' = <<p>> /\ k' = -1
         \/ Part = 1 /\ k = -1 /\ \E b \in 1..255 : \E x \in 1..Len(Sfx) : s' = Access[s[1]] \o <<b>> \o Sfx[x] /\ k' = 1
+        \/ Part = 1 /\ k = 0 /\ \E p \in 1..Len(LongAccess) : s' = <<p>> /\ k' = -2
+        \/ Part = 1 /\ k = -2 /\ \E b \in KeyBytes : \E x \in 1..Len(LongSfx) : s' = LongAccess[s[1]] \o <<b>> \o LongSfx[x] /\ k' = 1
         \/ Part = 2 /\ k = 0 /\ \E l \in 128..255 : s' = <<l>> /\ k' = -1
         \/ Part = 2 /\ k = -1 /\ \E c \in 1..6 :
              \/ \E b2 \in 1..255 : s' = Ctx(<<s[1], b2>>, c) /\ k' = 1
